@@ -139,7 +139,14 @@ __CPROVER_ensures(nv_gcount <= nv_ver_counter && nv_ver_counter < 2000000000u &&
 #define NV_NONLS_ASSIGNS __CPROVER_assigns(nv_ver_counter, nv_gcount)
 #define NV_ELLIPSOID_GHOSTS , nv_sqrt_rec, nv_dot_rec
 #define NV_NONLS_ASSIGNS_X __CPROVER_assigns(nv_ver_counter, nv_gcount NV_ELLIPSOID_GHOSTS)
-#ifndef NV_ELLIPSOID_C03
+/* C03 (ellipsoid): converged => the stopping test was evaluated in the iteration that returns: either g'Hg < machine epsilon was
+ * computed after the last evaluation, or sqrt(g'Hg) < epsilon was evaluated after the last evaluation on the g'Hg of that iteration */
+#if defined(NV_C03)
+#define NV_ELLIPSOID_C03 \
+__CPROVER_ensures(NV_RET.m_status == NVE_solver_status_converged ==> ( \
+     (nv_dot_rec.res < 2.220446049250313e-16 && nv_dot_rec.at == nv_ver_counter) \
+  || (nv_sqrt_rec.res < nv_epsilon && NV_SAME(nv_sqrt_rec.arg, nv_dot_rec.res) && nv_sqrt_rec.at == nv_ver_counter && nv_dot_rec.at + 1 == nv_ver_counter)))
+#else
 #define NV_ELLIPSOID_C03
 #endif
 /* loop invariant: the best state is an untested (max_iters), consistent, finite state not above the starting value */
